@@ -257,3 +257,54 @@ theorem closest16_exact (tbl : List (Text × RGB)) (c : RGB) (ex : List Text) (n
   have := hfirst np hnp hanp
   rw [heq, dist_self] at this; omega
 end Ptk.C19
+namespace Ptk.C19
+open Ptk.Py
+
+/-- Boolean check: no entry repeats the colour of an earlier entry, except entries with index `skip` -/
+def firstOccB (skip : Nat) : List (Nat × RGB) → Bool
+  | [] => true
+  | a :: rest => rest.all (fun b => b.2 != a.2 || b.1 == skip) && firstOccB skip rest
+
+theorem firstOccB_pairwise (skip : Nat) (l : List (Nat × RGB)) (h : firstOccB skip l = true) :
+    l.Pairwise (fun a b => b.2 ≠ a.2 ∨ b.1 = skip) := by
+  induction l with
+  | nil => exact List.Pairwise.nil
+  | cons a rest ih =>
+    simp only [firstOccB, Bool.and_eq_true, List.all_eq_true] at h
+    refine List.Pairwise.cons ?_ (ih h.2)
+    intro b hb
+    have := h.1 b hb
+    simpa using this
+
+theorem pairwise_of_sorted {α} (R : α → α → Prop) (key : α → Nat) (l : List α)
+    (hR : l.Pairwise R) (hS : l.Pairwise (fun a b => key a < key b)) :
+    ∀ a ∈ l, ∀ b ∈ l, key a < key b → R a b := by
+  induction l with
+  | nil => intro a ha; simp at ha
+  | cons x xs ih =>
+    rw [List.pairwise_cons] at hR hS
+    intro a ha b hb hlt
+    rcases List.mem_cons.mp ha with rfl | ha'
+    · rcases List.mem_cons.mp hb with rfl | hb'
+      · omega
+      · exact hR.1 b hb'
+    · rcases List.mem_cons.mp hb with rfl | hb'
+      · have := hS.1 a ha'; omega
+      · exact ih hR.2 hS.2 a ha' b hb' hlt
+
+/-- if the palette passes `firstOccB skip`, every entry ≥ 16 other than `skip` is a fixed point -/
+theorem closest256_fixed_index (pal : List RGB) (skip : Nat) (hocc : firstOccB skip (idx256 pal) = true)
+    (j : Nat) (h16 : 16 ≤ j) (c : RGB) (hc : pal[j]? = some c) (hne : j ≠ skip) :
+    closest256 pal c = j := by
+  obtain ⟨h1, h2, h3, _⟩ := closest256_exact pal c j h16 hc
+  apply Nat.le_antisymm h3
+  apply Nat.le_of_not_lt
+  intro hlt
+  have hpw := firstOccB_pairwise skip _ hocc
+  have hsorted : (idx256 pal).Pairwise (fun a b => a.1 < b.1) := (pairwise_enumFrom pal 0).filter _
+  have := pairwise_of_sorted _ (fun ip : Nat × RGB => ip.1) _ hpw hsorted
+    (closest256 pal c, c) (mem_idx256.mpr ⟨h2, h1⟩) (j, c) (mem_idx256.mpr ⟨h16, hc⟩) hlt
+  rcases this with h | h
+  · exact h rfl
+  · exact hne h
+end Ptk.C19
